@@ -16,6 +16,14 @@
 (*   parse  fields: <<[f, form, recs of <<[n, t]>>]>>                      *)
 (*                                 the records cls(text) exposes           *)
 (*   load                          continue with the parsed object         *)
+(*   append f, rec / setsize f, r, tok                                     *)
+(*                                 obj[f].append(rec) / obj[f][r]['size']  *)
+(*                                 = tok: the list is changed IN PLACE     *)
+(*   assign f, form, recs / delete f                                       *)
+(*                                 obj[f] = recs / del obj[f]              *)
+(* A dump is always of the living object, a parse always of a fresh object *)
+(* made from the dumped text; mutations change the living object, and the  *)
+(* next dump must be explained by its CURRENT records.                     *)
 (* build* dump parse            is the direction records -> text -> records*)
 (* given parse load dump parse  is the direction text -> records -> text   *)
 (* The specification explains a dump iff it predicts the outcome (never an *)
@@ -43,10 +51,12 @@ TText(fields)   == [f \in TIdx(fields) |-> [form |-> TPick(fields, f).form, line
 
 TInit == /\ tid \in 1..Len(Traces)
          /\ l = 1
-         /\ mode = [name |-> "trace", uniform |-> FALSE, maxf |-> 99, heavy |-> TRUE, emitmod |-> 1]
+         /\ mode = [name |-> "trace", uniform |-> FALSE, maxf |-> 99, heavy |-> TRUE, emitmod |-> 1,
+                    maxmut |-> 0, flimit |-> 99]
          /\ cls = Traces[tid].cls /\ beh = Traces[tid].beh
          /\ shape = NoShape
          /\ para = <<>> /\ phase = "build" /\ widths = <<>> /\ text = <<>> /\ parsed = <<>> /\ res = "ok"
+         /\ nmut = 0 /\ hist = <<>> /\ cache = NoCache
 
 \* obj = cls(text): the object holds what the text says; the text must be a rendering of recs.
 \* (The large predicates are written "P = TRUE": TLC then evaluates them as values instead of
@@ -56,7 +66,7 @@ Given(p, t) == /\ phase = "build" /\ para = <<>>
                /\ (\A f \in DOMAIN p : MEntryOK(Subs(f), p[f])) = TRUE
                /\ MExplains(Tables, cls, beh, p, t, FALSE) = TRUE
                /\ para' = p /\ text' = t /\ phase' = "dumped" /\ res' = "ok"
-               /\ UNCHANGED <<mode, cls, beh, shape, widths, parsed>>
+               /\ UNCHANGED <<mode, cls, beh, shape, widths, parsed, nmut, hist, cache>>
 
 TStep == /\ l <= Len(Tr.events)
          /\ LET e == Tr.events[l] IN
@@ -74,6 +84,14 @@ TStep == /\ l <= Len(Tr.events)
                  /\ parsed' = TPara(e.fields)                      \* names, tokens, order
               \/ /\ e.op = "load"
                  /\ Load
+              \/ /\ e.op = "append"
+                 /\ AppendRec(e.f, e.rec)
+              \/ /\ e.op = "setsize"
+                 /\ SetSize(e.f, e.r, e.tok)
+              \/ /\ e.op = "assign"
+                 /\ Assign(e.f, [form |-> e.form, recs |-> e.recs])
+              \/ /\ e.op = "delete"
+                 /\ Delete(e.f)
          /\ l' = l + 1 /\ UNCHANGED tid
          /\ (Diag => PrintT(<<"AT", tid, l>>))
          /\ (l' = Len(Tr.events) + 1 => PrintT(<<"ACCEPTED", tid>>))
